@@ -44,12 +44,13 @@ def field_type(ctx, me, t):
 # contexts outside every known class, usable in a struct field
 CLEAN_FIELD = ["direct", "option", "vec", "map_value", "btree_value", "set", "btree_set", "tuple_first", "tuple_last",
                "ref", "opt_vec", "vec_opt", "map_vec", "vec_tuple", "opt_opt", "map_key", "tuple_mid", "opt_tuple_vec",
-               "map_tuple", "ref_ref", "tuple4_last", "result_alias", "vec_result_alias"]
-KF_FIELD = ["tuple_map", "result_ok", "result_err"]
-CLEAN_PARAM = ["direct", "option", "vec", "map_value", "tuple_last", "ref", "opt_vec", "vec_tuple", "set", "map_tuple"]
-KF_PARAM = ["tuple_map"]
-CLEAN_RET = ["direct", "option", "vec", "result_ok", "map_value", "tuple_first", "opt_vec", "result_alias"]
-KF_RET = ["result_map", "tuple_map", "result_tuple"]
+               "map_tuple", "ref_ref", "tuple4_last", "result_alias", "vec_result_alias", "tuple_map"]
+KF_FIELD = ["result_ok", "result_err"]
+CLEAN_PARAM = ["direct", "option", "vec", "map_value", "tuple_last", "ref", "opt_vec", "vec_tuple", "set", "map_tuple", "tuple_map"]
+KF_PARAM = []
+CLEAN_RET = ["direct", "option", "vec", "result_ok", "map_value", "tuple_first", "opt_vec", "result_alias", "result_map", "tuple_map",
+             "result_tuple"]
+KF_RET = []
 
 TYPE_NAMES = ["User", "Profile", "Settings", "Item", "Order", "Address", "Status", "Kind", "Report", "Node", "Leaf", "Meta",
               "Account", "Token", "Batch", "Zone"]
